@@ -81,7 +81,9 @@ def run_property(prop, root="/repo", tier="quick", replay=None, out=sys.stdout, 
     seed = int(os.environ.get("VERIF_SEED", "0") or 0)
     if prop not in props.P:
         print("ANALYSIS-ERROR: unknown property %s" % prop, file=out); return 2
-    res = analyse(prop, root)
+    util.TIER = tier                      # rules with a sample grid take the full grid in the thorough tier (the self-test below runs the quick one)
+    try: res = analyse(prop, root)
+    finally: util.TIER = "quick"
     known = load_known()
     open_keys = {kkey(k): k for k in known.get("open", []) if k["property"] == prop}
     new, listed = [], []
